@@ -113,6 +113,7 @@ type StructDef struct {
 type Universe struct {
 	Structs []StructDef `json:"structs"`
 	Root    *Type       `json:"root"`
+	Extra   []*Type     `json:"extra,omitempty"` // further root types, exposed as methods M0, M1, ... of the service
 }
 
 func (u *Universe) Struct(name string) *StructDef {
